@@ -162,7 +162,7 @@ def run(report, p):
     ok = False
     for comp in comps:
         gen = comp.generators[0]
-        it_ok = isinstance(gen.iter, ast.Name) and gen.iter.id == tfm.params[0]
+        it_ok = _maps_all(tfm, gen.iter, tfm.params[0])
         cond = gen.ifs[0] if len(gen.ifs) == 1 else None
         neg = isinstance(cond, ast.UnaryOp) and isinstance(cond.op, ast.Not)
         mf = cond.operand if neg else None
@@ -177,7 +177,7 @@ def run(report, p):
             var = st.targets[0].id
             # every later read of the (unfiltered) path collection reads the filtered one
             for n in walk_no_nested(tfm.node):
-                if isinstance(n, ast.Name) and isinstance(n.ctx, ast.Load) and n.id == tfm.params[0] and n is not gen.iter:
+                if isinstance(n, ast.Name) and isinstance(n.ctx, ast.Load) and n.id == tfm.params[0] and n is not gen.iter and not _feeds(tfm, n, gen.iter):
                     o = pr.origins(n, tfm)
                     ok = ok and all(x[0] == "op" and x[1] == "comp" for x in o)
             # and the filtered collection is what is counted / reported
@@ -333,9 +333,17 @@ def run(report, p):
                 v = st.value
                 if isinstance(v, ast.Call) and "class:" + SPEC in p.resolve_call(v, cm) and len(v.args) >= 2:
                     a0, a1 = norm(v.args[0]), norm(v.args[1])
-                    tgt_list = norm(st.targets[0]).split(".process_info")[0]
                     written = norm(wc.args[0]) if wc.args else None
-                    if a0 == f"{hist}.latest_ignore_patterns()" and a1.endswith("ignore_spec.get_pattern_list()") and a1.startswith(cm.params[0] + ".") and tgt_list == written and g.dominates(g.node_for(st), g.node_for(wc)):
+                    # the object whose ignore_spec is set is <written list>.process_info (directly or through a local alias)
+                    same_list = False
+                    base = st.targets[0].value
+                    wsigs = {sig(o, 4) for o in pr.origins(wc.args[0], cm)} if wc.args else set()
+                    for o in pr.origins(base, cm):
+                        if o[0] == "attr" and o[2] == "process_info" and sig(o[1], 4) in wsigs:
+                            same_list = True
+                    if norm(st.targets[0]).split(".process_info")[0] == written:
+                        same_list = True
+                    if a0 == f"{hist}.latest_ignore_patterns()" and a1.endswith("ignore_spec.get_pattern_list()") and a1.startswith(cm.params[0] + ".") and same_list and g.dominates(g.node_for(st), g.node_for(wc)):
                         good = True
             r5.check(good, cm, wc, "a generation is written without the accumulated patterns (its history's latest patterns + this run's spec)")
 
@@ -410,6 +418,37 @@ def _in(node, func):
             return True
         x = parent(x)
     return False
+
+
+def _single_def(f, name):
+    binds = [n for n in walk_no_nested(f.node) if isinstance(n, ast.Assign) and len(n.targets) == 1 and isinstance(n.targets[0], ast.Name) and n.targets[0].id == name]
+    return binds[0].value if len(binds) == 1 else None
+
+
+def _maps_all(f, e, param, depth=0) -> bool:
+    """`e` enumerates every element of parameter `param`, possibly mapped one-to-one (comprehension without `if`, list/tuple/sorted/map)"""
+    if depth > 4:
+        return False
+    if isinstance(e, ast.Name):
+        if e.id == param:
+            return True
+        v = _single_def(f, e.id)
+        return v is not None and _maps_all(f, v, param, depth + 1)
+    if isinstance(e, (ast.ListComp, ast.GeneratorExp)) and len(e.generators) == 1 and not e.generators[0].ifs:
+        return _maps_all(f, e.generators[0].iter, param, depth + 1)
+    if isinstance(e, ast.Call) and norm(e.func) in ("list", "tuple", "sorted", "iter") and len(e.args) == 1:
+        return _maps_all(f, e.args[0], param, depth + 1)
+    if isinstance(e, ast.Call) and norm(e.func) == "map" and len(e.args) == 2:
+        return _maps_all(f, e.args[1], param, depth + 1)
+    return False
+
+
+def _feeds(f, name_node, it) -> bool:
+    """the read of the parameter is the one inside the one-to-one mapping that feeds the filter"""
+    x = parent(name_node)
+    while x is not None and not isinstance(x, ast.stmt):
+        x = parent(x)
+    return isinstance(it, ast.Name) and isinstance(x, ast.Assign) and len(x.targets) == 1 and isinstance(x.targets[0], ast.Name) and x.targets[0].id == it.id
 
 
 def finish(report):
